@@ -333,5 +333,67 @@ Fixpoint leaf_outs (n : node) : list (list summary) :=
 Fixpoint states (n : node) (h : list op) : list node :=
   match h with [] => [] | o :: r => let n' := do_op n o in n' :: states n' r end.
 
-(* run.py: sys.exit(not result.wasSuccessful()) *)
-Definition exit_status (ok : bool) : nat := if ok then 0 else 1.
+(* ---------- several ThreadsafeForwardingResults sharing one target and one semaphore ---------- *)
+(* One adapter per thread (ConcurrentTestSuite's arrangement), all over the same target with the same
+   Semaphore(1).  Every forwarding method of the adapter (startTestRun, add*, stop, stopTestRun) is
+   semaphore.acquire(); <calls on the target>; semaphore.release(); return.  Under the deterministic scheduler
+   of the harness (vcheck/sched.py) the acquire and the release are the yield points: a thread parks before its
+   acquire until the semaphore is free and the scheduler picks it, then does all its calls on the target and
+   parks before its release; picked again it releases, returns and runs on to the acquire of its next call.
+   A thread: the calls it still has to make (the head is the current one) and whether it is parked at the
+   release of the current call, holding the semaphore. *)
+Definition cth := (list op * bool)%type.
+Definition c_done (t : cth) : bool := match fst t with [] => true | _ => false end.
+Definition c_ready (free : bool) (t : cth) : bool := negb (c_done t) && (snd t || free).
+(* sched.py: the schedule entry names a task; if that one cannot run, the next runnable one cyclically;
+   an exhausted schedule picks the lowest-numbered runnable task (= entry 0) *)
+Definition rotation (want n : nat) : list nat := let w := want mod n in seq w (n - w) ++ seq 0 w.
+Definition pick (want : nat) (ts : list cth) : option nat :=
+  let free := negb (existsb snd ts) in
+  find (fun k => match nth_error ts k with Some t => c_ready free t | None => false end)
+       (rotation want (length ts)).
+Fixpoint set_nth {A} (k : nat) (x : A) (l : list A) : list A :=
+  match l, k with
+  | [], _ => []
+  | _ :: r, 0 => x :: r
+  | y :: r, S k' => y :: set_nth k' x r
+  end.
+Definition c_run (t : cth) : cth :=
+  match t with
+  | (o :: r, true) => (r, false)          (* release; return; on to the next call *)
+  | (o :: r, false) => (o :: r, true)     (* acquire; the calls on the target; up to the release *)
+  | _ => t
+  end.
+(* the threads whose calls take effect on the target, in that order *)
+Fixpoint run_sched (fuel : nat) (ts : list cth) (sch : list nat) : list nat :=
+  match fuel with
+  | 0 => []
+  | S f =>
+      if forallb c_done ts then [] else
+      match pick (hd 0 sch) ts with
+      | None => []                         (* deadlock: does not happen, Proof.C04.run_sched_complete *)
+      | Some k => match nth_error ts k with
+                  | Some t => (if snd t then [] else [k]) ++ run_sched f (set_nth k (c_run t) ts) (tl sch)
+                  | None => []
+                  end
+      end
+  end.
+Definition linear_order (ths : list (list op)) (sch : list nat) : list nat :=
+  run_sched (2 * length (concat ths)) (map (fun p => (p, false)) ths) sch.
+
+(* the calls of the threads put into one sequence: ord names, call by call, the thread whose next call comes;
+   None unless every call of every thread is used exactly once *)
+Definition is_nil {A} (l : list A) : bool := match l with [] => true | _ => false end.
+Fixpoint merge (ths : list (list op)) (ord : list nat) : option (list op) :=
+  match ord with
+  | [] => if forallb is_nil ths then Some [] else None
+  | k :: r => match nth_error ths k with
+              | Some (o :: rest) => option_map (cons o) (merge (set_nth k rest ths) r)
+              | _ => None
+              end
+  end.
+
+(* run.py: sys.exit(not result.wasSuccessful()); what the operating system reports for sys.exit(n) is n mod 256 *)
+Definition exit_arg (ok : bool) : nat := if ok then 0 else 1.
+Definition os_status (arg : nat) : nat := arg mod 256.
+Definition exit_status (ok : bool) : nat := os_status (exit_arg ok).
